@@ -42,6 +42,7 @@ class ARun:
         from graphql.execution import execute
         self.loop = DetLoop()
         self.gates = {}
+        self.inflight = {}
         self.counts = {}
         self.log = []
         self.calls = []
@@ -94,14 +95,30 @@ class ARun:
             # a resolver of root field `root` is invoked: which other root fields still have uncancelled pending gates?
             for g, f in self.gates.items():
                 if not f.done() and root_of(g) != root and not g.startswith("istype") and not g.startswith("type:"):
-                    self.log.append({"r": root, "e": root_of(g), "at": gate_path(g), "rat": gate_path(key)})
+                    self.log.append({"r": root, "e": root_of(g), "at": gate_path(g), "rat": gate_path(key), "cw": False})
+            # ... and which resolver coroutines of other root fields were cancelled but have not finished unwinding?
+            # (a failed field waits for the siblings it cancels before its error propagates: gather_with_cancel)
+            for g, f in self.inflight.items():
+                if f.cancelled() and root_of(g) != root:
+                    self.log.append({"r": root, "e": root_of(g), "at": gate_path(g), "rat": gate_path(key), "cw": True})
         mode = hh(self.sd, key, "m")
         if mode >= self.p_gate:
             return self.listify(key, thunk())
 
         async def later():
             name, fut = self.gate(key)
-            await fut
+            self.inflight[name] = fut
+            try:
+                await fut
+            finally:
+                # the coroutine is unwinding (normally or by cancellation); a cleanup step takes one more turn of the loop
+                if fut.cancelled():
+                    try:
+                        await asyncio.sleep(0)
+                    finally:
+                        self.inflight.pop(name, None)
+                else:
+                    self.inflight.pop(name, None)
             return self.listify(key, thunk())
         return later()
 
@@ -222,13 +239,41 @@ def explore(case, sd, p_gate, op, budget, rng):
     return results, exhaustive
 
 
+def targeted_cases():
+    """Small hand-shaped requests for the cancellation / seriality rules: a root field whose object (or list of objects) has
+    several awaitable fields of which a non-null one fails, followed by another root field."""
+    def F(name, sel=(), alias=""):
+        return {"k": "F", "alias": alias, "name": name, "args": [], "dirs": [], "sel": list(sel)}
+
+    def iv(n):
+        return {"t": "v", "v": {"t": "i", "v": n}}
+
+    def A(y):
+        return {"t": "o", "type": "A", "f": {"x": iv(1), "y": y, "s": {"t": "v", "v": {"t": "s", "v": "s1"}}, "o": {"t": "null"}}}
+    out = []
+    for bad in ({"t": "null"}, {"t": "err"}):
+        for first, data in (("o", A(bad)), ("on", A(bad)), ("l", {"t": "l", "v": [A(iv(2)), A(bad)]}), ("la", {"t": "l", "v": [A(bad), A(iv(3))]})):
+            for op in ("mutation", "query"):
+                root_type = "Mutation" if op == "mutation" else "Query"
+                sel = [F(first, [F("x"), F("y"), F("s")]), F("a"), F("o", [F("x"), F("s")], alias="o2")]
+                root = {"t": "o", "type": root_type, "f": {first: data, "a": iv(2), "o": A(iv(5))}}
+                if first == "o":
+                    root["f"]["o"] = data
+                out.append(({"schema": gqlmini.ABS_MUTATION if op == "mutation" else gqlmini.ABS,
+                             "doc": {"sel": sel, "frags": {"_": {"on": "Query", "sel": []}}, "vardefs": []}, "vars": {"_": {"t": "null"}}, "root": root}, op))
+    return out
+
+
 def _chunk(jobs):
     from graphql import parse, validate
     out = []
+    targeted = targeted_cases()
     for sd, tier in jobs:
         rng = random.Random(sd)
         op = "mutation" if rng.random() < 0.3 else "query"
         case = gqlmini.gen_case(sd, depth=rng.choice([2, 2, 3]), op=op)
+        if sd < 0:
+            case, op = targeted[(-sd - 1) % len(targeted)]
         text = gqlmini.render_doc(case, op)
         try:
             if validate(gqlmini.schema(), parse(text)):
@@ -238,8 +283,8 @@ def _chunk(jobs):
         except Exception as e:  # noqa: BLE001
             out.append({"error": f"sync reference: {type(e).__name__}: {e}", "query": text})
             continue
-        p_gate = rng.choice([0.3, 0.6, 1.0])
-        results, exhaustive = explore(case, sd, p_gate, op, 60 if tier == "quick" else 400, rng)
+        p_gate = rng.choice([0.3, 0.6, 1.0]) if sd >= 0 else 1.0
+        results, exhaustive = explore(case, sd, p_gate, op, (60 if tier == "quick" else 400) if sd >= 0 else 150, rng)
         for order, r in results:
             meta = {"seed": sd, "query": text, "variables": gqlmini.render_vars(case), "order": order, "p_gate": p_gate, "exhaustive": exhaustive}
             if r.hang or r.raised is not None or r.result is None:
@@ -259,13 +304,20 @@ def _chunk(jobs):
     return out
 
 
+def _am_chunk(jobs):
+    from . import asyncmodel
+    return asyncmodel.make_records([sd for sd, _t in jobs], jobs[0][1])
+
+
 def run(tier: str, rd):
     ev = Evidence(PROP, tier)
     vd = Verdicts(PROP)
     n = 500 if tier == "quick" else 4000
     base = seed() * 1000000 + 500000
     recs = []
-    for lst in pmap(_chunk, [(s, tier) for s in range(base, base + n)], chunk=10):
+    # hand-shaped requests (negative seeds; both type-resolution routes: the parity of the seed selects it)
+    n_t = 2 * len(targeted_cases())
+    for lst in pmap(_chunk, [(s, tier) for s in range(base, base + n)] + [(-k, tier) for k in range(1, n_t + 1)], chunk=10):
         recs += lst
     for e in [r for r in recs if "error" in r][:5]:
         vd.violation("execution-failed", e.get("_meta") or {"query": e.get("query")}, e["error"])
@@ -282,6 +334,40 @@ def run(tier: str, rd):
             rec = batch[o["viol"] - 1]
             hits[o["clause"]] = hits.get(o["clause"], 0) + 1
             vd.violation(o["clause"], rec["_meta"], {"async": rec["response"], "sync": rec["sync"]})
+    # ---- I-spec: AsyncExec.tla (the executor's scheduling), M over every completion order + V against the real executor
+    n_am = 200 if tier == "quick" else 2000
+    am = []
+    for lst in pmap(_am_chunk, [(s, tier) for s in range(base + 50000, base + 50000 + n_am)], chunk=10):
+        am += lst
+    am_stats = {"requests": len(am), "orders_executed": sum(len(r["runs"]) for r in am), "mutations": sum(1 for r in am if r["serial"]),
+                "requests_explored_exhaustively": sum(1 for r in am if r["_meta"]["exhaustive"]), "drift": {}}
+    for r in am:
+        for fr in r["_meta"]["failed_runs"]:
+            vd.violation("execution-failed", r["_meta"], str(fr))
+    for bi in range(0, len(am), 1000):
+        batch = am[bi:bi + 1000]
+        payload = [{k: v for k, v in r.items() if not k.startswith("_")} for r in batch]
+        p = common.write_cases(rd, f"am{bi}.json", payload)
+        r = run_tlc(rd, "MCAsyncExec", "INIT Init\nNEXT Stutter\nINVARIANT TraceOK\nCHECK_DEADLOCK FALSE\n", name=f"AsyncExecV{bi}", env={"CASES": str(p)},
+                    timeout=3400, heap="16g")
+        ev.add_tlc(f"V (I-spec): {sum(len(x['runs']) for x in batch)} executed completion orders of {len(batch)} requests replayed on AsyncExec.tla, "
+                   "pending gates compared after every step", r)
+        for o in r.json_lines():
+            am_stats["drift"][o["clause"]] = am_stats["drift"].get(o["clause"], 0) + 1
+            vd.note_drift(f"AsyncExec.tla: {o['clause']}", {**batch[o["viol"] - 1]["_meta"], "run": o.get("run"), "at": o.get("at")})
+        # M: every completion order on the model (a part of the batch in the quick tier)
+        mbatch = payload[:40] if tier == "quick" else payload[:300]
+        pm = common.write_cases(rd, f"amM{bi}.json", mbatch)
+        r = run_tlc(rd, "MCAsyncExec", "INIT Init\nNEXT Next\nINVARIANT Confluence\nINVARIANT Progress\nINVARIANT Seriality\nINVARIANT Orphans\nCHECK_DEADLOCK FALSE\n",
+                    name=f"AsyncExecM{bi}", env={"CASES": str(pm)}, timeout=3400, heap="16g", allow_violation=True)
+        ev.add_tlc(f"M (I-spec): every completion order of {len(mbatch)} requests on AsyncExec.tla: Confluence with Execute.tla, Progress, Seriality, Orphans", r)
+        if r.invariant_violations or r.rc not in (0,):
+            vd.note_drift(f"AsyncExec.tla violates {r.invariant_violations or r.rc} on the model", {"batch": bi, "tail": r.tail(12)[-600:]})
+            am_stats["drift"]["model-invariant"] = str(r.invariant_violations or r.rc)
+        if tier == "quick":
+            break
+    ev.traces += sum(len(r["runs"]) for r in am)
+    ev.extra["AsyncExec_I_spec"] = am_stats
     ev.traces += len(recs)
     for r in recs:
         ev.case(None, nontrivial=r["_gates"] >= 2, key=common.digest([r["_meta"]["query"], r["_meta"]["variables"], r["_meta"]["order"], r["root"]]))
